@@ -677,4 +677,249 @@ example : (obs (evalProgram expectedRuleTable b!"{ print \"rule\" }" [b!"match (
 example : (obs (evalProgram expectedRuleTable b!"ENDFILE { print $ }" [b!"$.a"] [doc1])).2.1 = b!"{\"k\": 1}\n" ∧
     (obs (evalProgram expectedRuleTable b!"BEGINFILE { $ = $.a } ENDFILE { print $ }" [] [doc1])).2.1 ≠ b!"{\"k\": 1}\n" := by
   decide +kernel
+/-! ## `-o` and the number of inputs (added after the statement review: REVIEW.md, C14)
+
+cli/cli.go runs the whole program first (`lang.EvalProgram`, writing to stdout) and looks at `-o`
+only afterwards: with more than one input path it prints "error writing JSON: can't write JSON with
+more than one input file" on stderr and returns 1 without opening the `-o` target.  The model's
+`Result.done exit out errNonEmpty written` records the exit status, the bytes on stdout, WHETHER
+anything was written to stderr (not the text) and the file written, if any. -/
+
+/-- is the program's run one the model gives a result for (`finish` answers `.unmodelled` for an
+    interpreter outcome "unmodelled" or "out of fuel") -/
+def modelled (r : RunResult) : Bool :=
+  match r.outcome with
+  | .unmodelled _ | .oof => false
+  | _ => true
+
+/-- can `os.Create(file)` succeed: an existing entry that is not a directory, or a new name in an
+    existing directory -/
+def creatable (fs : List Entry) (file : Bytes) : Bool :=
+  match lookup fs file with
+  | some e => !e.isDir
+  | none => dirExists fs (dirPart file)
+
+/-- **`-o` with several inputs is an error** (after the interpreter ran): whatever the program did
+    — success or failure —, with a non-empty `-o` value (a file name or `-`) and two or more input
+    paths the result is exit status 1, a diagnostic on stderr, NOTHING written to the `-o` target
+    (and nothing appended to stdout for `-o -`): stdout holds exactly the program's own output
+    `r.out`, all of it, since the program ran to its end before `-o` was looked at. -/
+theorem o_several_inputs_finish (fs : List Entry) (o : Opts) (n : Nat) (r : RunResult)
+    (ho : o.outfile ≠ []) (hn : 2 ≤ n) (hm : modelled r = true) :
+    finish fs o n r = .done 1 r.out true none := by
+  have ho' : o.outfile.isEmpty = false := by cases h : o.outfile <;> simp_all
+  have hn' : n > 1 := hn
+  unfold finish
+  unfold modelled at hm
+  cases hr : r.outcome <;> simp_all
+
+/-- … and for an interpreter outcome the model declines, `finish` declines too (no claim) -/
+theorem finish_unmodelled (fs : List Entry) (o : Opts) (n : Nat) (r : RunResult)
+    (hm : modelled r = false) : finish fs o n r = .unmodelled := by
+  unfold finish
+  unfold modelled at hm
+  cases hr : r.outcome <;> simp_all
+
+/-- **with one input (a single file, or stdin) `-o` writes the JSON of the root** after a successful
+    run: `-o -` appends it to the program's output on stdout; `-o FILE` writes exactly it to FILE
+    when FILE can be created (stdout = the program's output, status 0, no diagnostic), and is an
+    error with nothing written when it cannot (FILE is a directory or its directory is missing).
+    `j` is `GetRootJson()` of the final state; when there is none (no value was read, or the root
+    cannot be serialised) the result is the error, see `o_single_input_no_json`. -/
+theorem o_single_input_finish (fs : List Entry) (o : Opts) (n : Nat) (r : RunResult) (j : Bytes)
+    (ho : o.outfile ≠ []) (hn : n ≤ 1) (hok : r.outcome = .ok) (hj : r.st.bind getRootJson = some j) :
+    finish fs o n r =
+      if o.outfile = b!"-" then .done 0 (r.out ++ j) false none
+      else if creatable fs o.outfile = true then .done 0 r.out false (some (o.outfile, j))
+      else .done 1 r.out true none := by
+  have ho' : o.outfile.isEmpty = false := by cases h : o.outfile <;> simp_all
+  have hn' : ¬ n > 1 := by omega
+  unfold finish creatable
+  simp only [hok, ho', hn', hj, Bool.false_eq_true, ↓reduceIte, beq_iff_eq]
+  by_cases hd : o.outfile = b!"-"
+  · simp only [hd, ↓reduceIte]
+  · simp only [hd, ↓reduceIte]
+    cases hl : lookup fs o.outfile with
+    | none => simp
+    | some e => by_cases h : e.isDir = true <;> simp [h]
+
+/-- one input, successful run, but no JSON to write: status 1, a diagnostic, nothing written -/
+theorem o_single_input_no_json (fs : List Entry) (o : Opts) (n : Nat) (r : RunResult)
+    (ho : o.outfile ≠ []) (hok : r.outcome = .ok) (hj : r.st.bind getRootJson = none) :
+    finish fs o n r = .done 1 r.out true none := by
+  have ho' : o.outfile.isEmpty = false := by cases h : o.outfile <;> simp_all
+  unfold finish
+  simp only [hok, ho', hj, Bool.false_eq_true, ↓reduceIte]
+  split <;> rfl
+
+/-- a failed run (syntax / runtime / JSON error …) with `-o`: the program's error is the result and
+    `-o` is not looked at, whatever the number of inputs -/
+theorem o_after_failed_run (fs : List Entry) (o : Opts) (n : Nat) (r : RunResult)
+    (hm : modelled r = true) (hok : r.outcome ≠ .ok) :
+    finish fs o n r = .done 1 r.out true none := by
+  unfold finish
+  unfold modelled at hm
+  cases hr : r.outcome <;> simp_all
+
+theorem parseFlags_o (fuel : Nat) (v : Bytes) (rest : List Bytes) (o : Opts) :
+    parseFlags (fuel + 1) (b!"-o" :: v :: rest) o = parseFlags fuel rest { o with outfile := v } := by
+  conv => lhs; unfold parseFlags
+  simp [splitEq]
+
+/-- the command line `-o FILE PROGRAM [INPUT…]` (FILE may be `-`; PROGRAM not flag-like): the inputs
+    are opened in order (a missing one: status 1 before anything runs), the program runs on them,
+    and `finish` decides about `-o` with the number of input PATHS (1 for stdin) -/
+theorem run_dash_o (tbl : RuleTable) (file prog : Bytes) (files : List Bytes) (stdin : Bytes)
+    (fs : List Entry) (hprog : flagLike prog = false) :
+    run tbl (b!"-o" :: file :: prog :: files) stdin fs =
+      match inputsOf fs stdin files with
+      | (none, _) => .done 1 [] true none
+      | (some inputs, n) => finish fs { outfile := file } n (evalProgram tbl prog [] inputs) := by
+  have h2 : parseFlags ((b!"-o" :: file :: prog :: files).length + 1) (b!"-o" :: file :: prog :: files) {} =
+      .ok ({ outfile := file }, prog :: files) := by
+    rw [parseFlags_o]
+    exact parseFlags_stops _ prog files _ hprog
+  unfold run
+  rw [h2]
+  simp only [source, List.isEmpty_nil, Bool.not_true, Bool.false_eq_true, ↓reduceIte]
+  rfl
+
+/-- **every command line `-o FILE PROGRAM IN₁ IN₂ …` (two or more inputs, FILE a name or `-`) is an
+    error**: if an input cannot be opened the program does not run (status 1, nothing on stdout);
+    otherwise the program runs on all inputs and then the result is status 1, a diagnostic,
+    stdout = the program's complete output, and nothing is written to FILE. -/
+theorem o_several_inputs (tbl : RuleTable) (file prog f1 f2 : Bytes) (more : List Bytes) (stdin : Bytes)
+    (fs : List Entry) (hfile : file ≠ []) (hprog : flagLike prog = false) :
+    run tbl (b!"-o" :: file :: prog :: f1 :: f2 :: more) stdin fs =
+      match openFiles fs (f1 :: f2 :: more) with
+      | none => .done 1 [] true none
+      | some inputs =>
+        if modelled (evalProgram tbl prog [] inputs) = true then
+          .done 1 (evalProgram tbl prog [] inputs).out true none
+        else .unmodelled := by
+  rw [run_dash_o tbl file prog _ stdin fs hprog]
+  simp only [inputsOf, List.isEmpty_cons, Bool.false_eq_true, ↓reduceIte]
+  cases openFiles fs (f1 :: f2 :: more) with
+  | none => rfl
+  | some inputs =>
+    simp only
+    by_cases hm : modelled (evalProgram tbl prog [] inputs) = true
+    · rw [if_pos hm]
+      exact o_several_inputs_finish fs _ _ _ hfile (by simp) hm
+    · rw [if_neg hm]
+      exact finish_unmodelled fs _ _ _ (by simpa using hm)
+
+/-- `-o FILE PROGRAM` reading stdin and `-o FILE PROGRAM IN` reading one file: after a successful
+    run the JSON of the root goes to stdout (`-o -`, after the program's output) or to FILE -/
+theorem o_single_input (tbl : RuleTable) (file prog : Bytes) (files : List Bytes) (stdin : Bytes)
+    (fs : List Entry) (inputs : List InputFile) (j : Bytes)
+    (hfile : file ≠ []) (hprog : flagLike prog = false) (hfiles : files.length ≤ 1)
+    (hopen : (inputsOf fs stdin files).1 = some inputs)
+    (hok : (evalProgram tbl prog [] inputs).outcome = .ok)
+    (hj : (evalProgram tbl prog [] inputs).st.bind getRootJson = some j) :
+    run tbl (b!"-o" :: file :: prog :: files) stdin fs =
+      if file = b!"-" then .done 0 ((evalProgram tbl prog [] inputs).out ++ j) false none
+      else if creatable fs file = true then .done 0 (evalProgram tbl prog [] inputs).out false (some (file, j))
+      else .done 1 (evalProgram tbl prog [] inputs).out true none := by
+  rw [run_dash_o tbl file prog _ stdin fs hprog]
+  have hn : (inputsOf fs stdin files).2 ≤ 1 := by
+    unfold inputsOf; split <;> simp_all
+  rcases hio : inputsOf fs stdin files with ⟨oi, n⟩
+  rw [hio] at hopen hn
+  simp only at hopen hn
+  subst hopen
+  simp only
+  exact o_single_input_finish fs { outfile := file } n _ j hfile hn hok hj
+
+/-- non-vacuity and the observable behaviour on concrete command lines: two inputs with `-o out.json`
+    and with `-o -` (the program's output for BOTH files is printed, status 1, nothing written);
+    one input with `-o -` and `-o out.json`; stdin with `-o -` -/
+def exFs : List Entry := [⟨b!"a.json", b!"{\"a\":1}", false⟩, ⟨b!"b.json", b!"{\"a\":2}", false⟩]
+
+/-- exit status, stdout, "stderr is not empty" -/
+def showR : Result → Option (Nat × Bytes × Bool)
+  | .done e o er _ => some (e, o, er)
+  | .unmodelled => none
+
+/-- the file written -/
+def writtenR : Result → Option (Bytes × Bytes)
+  | .done _ _ _ w => w
+  | .unmodelled => none
+
+/-- non-vacuity and the observable behaviour on concrete command lines: two inputs with `-o out.json`
+    and with `-o -` (the program's output for BOTH files is printed, status 1, nothing written);
+    one input with `-o -` and `-o out.json`; stdin with `-o -`; a target that cannot be created -/
+example :
+    showR (run expectedRuleTable [b!"-o", b!"out.json", b!"{ print $.a }", b!"a.json", b!"b.json"] [] exFs)
+        = some (1, b!"1\n2\n", true) ∧
+    writtenR (run expectedRuleTable [b!"-o", b!"out.json", b!"{ print $.a }", b!"a.json", b!"b.json"] [] exFs)
+        = none ∧
+    showR (run expectedRuleTable [b!"-o", b!"-", b!"{ print $.a }", b!"a.json", b!"b.json"] [] exFs)
+        = some (1, b!"1\n2\n", true) ∧
+    showR (run expectedRuleTable [b!"-o", b!"-", b!"{ print $.a }", b!"b.json"] [] exFs)
+        = some (0, b!"2\n{\n  \"a\": 2\n}", false) ∧
+    showR (run expectedRuleTable [b!"-o", b!"out.json", b!"{ print $.a }", b!"b.json"] [] exFs)
+        = some (0, b!"2\n", false) ∧
+    writtenR (run expectedRuleTable [b!"-o", b!"out.json", b!"{ print $.a }", b!"b.json"] [] exFs)
+        = some (b!"out.json", b!"{\n  \"a\": 2\n}") ∧
+    showR (run expectedRuleTable [b!"-o", b!"-", b!"{ print $.a }"] b!"{\"a\":3}" exFs)
+        = some (0, b!"3\n{\n  \"a\": 3\n}", false) ∧
+    showR (run expectedRuleTable [b!"-o", b!"a.json/x", b!"{ print $.a }", b!"b.json"] [] exFs)
+        = some (1, b!"2\n", true) ∧
+    writtenR (run expectedRuleTable [b!"-o", b!"a.json/x", b!"{ print $.a }", b!"b.json"] [] exFs)
+        = none := by
+  refine ⟨?_, ?_, ?_, ?_, ?_, ?_, ?_, ?_, ?_⟩ <;> decide +kernel
+
+/-- the hypotheses of `o_single_input` hold for `-o - '{ print $.a }' b.json` -/
+example : flagLike b!"{ print $.a }" = false ∧
+    ((inputsOf exFs [] [b!"b.json"]).1.map (fun l => l.map (fun i => (i.name, i.data))))
+      = some [(b!"b.json", b!"{\"a\":2}")] ∧
+    (match (evalProgram expectedRuleTable b!"{ print $.a }" [] [⟨b!"b.json", b!"{\"a\":2}", .eof⟩]).outcome with
+      | .ok => true | _ => false) = true ∧
+    (evalProgram expectedRuleTable b!"{ print $.a }" [] [⟨b!"b.json", b!"{\"a\":2}", .eof⟩]).st.bind getRootJson
+      = some b!"{\n  \"a\": 2\n}" := by
+  decide +kernel
+
+/-- **for every command line**: whatever the flags and their order, if `flag.Parse` yields a
+    non-empty `-o` value and the program source resolves (inline or `-f`) with two or more input
+    paths left, then — unless an input cannot be opened (status 1, program not run) — the program
+    runs on all inputs and the result is status 1 with a diagnostic, stdout = the program's complete
+    output, nothing written; the model declines only where the interpreter's outcome is
+    "unmodelled" / out of fuel -/
+theorem o_several_inputs_any_argv (tbl : RuleTable) (argv : List Bytes) (stdin : Bytes) (fs : List Entry)
+    (o : Opts) (args : List Bytes) (progSrc : Bytes) (paths : List Bytes)
+    (hp : parseFlags (argv.length + 1) argv {} = .ok (o, args)) (ho : o.outfile ≠ [])
+    (hs : source fs o args = some (progSrc, paths)) (hn : 2 ≤ paths.length) :
+    run tbl argv stdin fs =
+      match openFiles fs paths with
+      | none => .done 1 [] true none
+      | some inputs =>
+        if modelled (evalProgram tbl progSrc o.sels inputs) = true then
+          .done 1 (evalProgram tbl progSrc o.sels inputs).out true none
+        else .unmodelled := by
+  unfold run
+  rw [hp]
+  simp only [hs]
+  have hne : paths.isEmpty = false := by cases paths <;> simp_all
+  simp only [inputsOf, hne, Bool.false_eq_true, ↓reduceIte]
+  cases openFiles fs paths with
+  | none => rfl
+  | some inputs =>
+    simp only
+    by_cases hm : modelled (evalProgram tbl progSrc o.sels inputs) = true
+    · rw [if_pos hm]
+      exact o_several_inputs_finish fs _ _ _ ho hn hm
+    · rw [if_neg hm]
+      exact finish_unmodelled fs _ _ _ (by simpa using hm)
+
+/-- non-vacuity of `o_several_inputs_any_argv`: `-r '$.a' -o=out.json -f p.jq a.json b.json` -/
+example :
+    (match parseFlags 8 [b!"-r", b!"$.a", b!"-o=out.json", b!"-f", b!"p.jq", b!"a.json", b!"b.json"] {} with
+      | .ok (o, args) => some (o.outfile, o.progFile, o.sels, args) | _ => none)
+      = some (b!"out.json", b!"p.jq", [b!"$.a"], [b!"a.json", b!"b.json"]) ∧
+    showR (run expectedRuleTable [b!"-r", b!"$.a", b!"-o=out.json", b!"-f", b!"p.jq", b!"a.json", b!"b.json"] []
+        (⟨b!"p.jq", b!"{ print $ }", false⟩ :: exFs)) = some (1, b!"1\n2\n", true) := by
+  refine ⟨?_, ?_⟩ <;> decide +kernel
+
+
 end Jqawk.C14
